@@ -418,7 +418,7 @@ pub fn apply(g: &mut GGrammar, t: &mut Tape) -> String {
         }
         19 => {
             // recursive macros
-            let body = *t.pick(&["XRec<(T)>", "XRec<T*>", "XRec<XRec<T>>", "XRec<T>", "XRec<\"n\">", "XRec<(T \"n\")>"]);
+            let body = *t.pick(&["XRec<(T)>", "XRec<T*>", "XRec<XRec<T>>", "XRec<T>", "XRec<\"n\">", "XRec<(T \"n\")>", "XRec<(T T)>"]);
             g.items.push(GItem::Nt(GNt::new("XRec", Some("()"), vec![GAlt::new(&["T"], Some("=> ()")), GAlt::new(&[body, "\"x\""], Some("=> ()"))]).params(&["T"])));
             let at = pick_alt(g, t);
             if let Some(a) = alt_mut(g, at) {
